@@ -509,6 +509,8 @@ func genOracles(ctx *core.Ctx) {
 	}
 	// single-attribute placements: each attribute alone, at every subset of positions of a 3-element cross-directory chain
 	genPlacements(ctx)
+	// ---- inherited short-form depends_on, one entry overridden in long form: the others keep their defaults
+	genDeps(ctx)
 	// ---- cycles, missing bases, missing files
 	genRejects(ctx)
 }
